@@ -899,10 +899,14 @@ func (ev *Eval) callExpr(x *ECall) Val {
 		case v.seqElem != nil:
 			return Val{Term: s.seqLen(v.seqES, v.Term)}
 		case v.Map != nil:
+			// as the len instruction: a nil map has length 0
 			mt := v.Map.T
-			return Val{Term: s.mapPart(s.sortOf(mt.Key()), s.sortOf(mt.Elem()), "msize", s.load(ev.mem, v.Map.Origin))}
+			cur := s.load(ev.mem, v.Map.Origin)
+			ks, vs := s.sortOf(mt.Key()), s.sortOf(mt.Elem())
+			return Val{Term: "(ite " + s.mapPart(ks, vs, "mnil", cur) + " 0 " + s.mapPart(ks, vs, "msize", cur) + ")"}
 		case v.mapT != nil:
-			return Val{Term: s.mapPart(s.sortOf(v.mapT.Key()), s.sortOf(v.mapT.Elem()), "msize", v.Term)}
+			ks, vs := s.sortOf(v.mapT.Key()), s.sortOf(v.mapT.Elem())
+			return Val{Term: "(ite " + s.mapPart(ks, vs, "mnil", v.Term) + " 0 " + s.mapPart(ks, vs, "msize", v.Term) + ")"}
 		}
 		if v.T != nil {
 			if at, ok := types.Unalias(v.T).Underlying().(*types.Array); ok {
